@@ -523,6 +523,16 @@ impl<'a> GeneratorState<'a> {
             _ => unreachable!(),
         }
 
+        // An address or a constant is not a place to write to (the name of an array, &x): stores
+        // and read-modify-write instructions have no immediate addressing mode
+        if dasm_operand.starts_with('#')
+            && matches!(mnemonic, STA | STX | STY | INC | DEC | ASL | LSR | ROL | ROR)
+        {
+            return Err(self
+                .compiler_state
+                .syntax_error("Bad left value in assignement", pos));
+        }
+
         let mut s = mnemonic.to_string();
         if !dasm_operand.is_empty() {
             s += " ";
